@@ -626,12 +626,55 @@ class _Aug(ast.NodeTransformer):
         return n
 
 
+# ------------------------------------------------------------------------------------------------ 5. operator.<f>(a, b)
+class _OperatorCalls(ast.NodeTransformer):
+    """`operator.gt(a, b)` is `a > b` (likewise lt, le, ge, eq, ne, add, sub, mul, truediv, mod, pow, neg, not_): the functional
+    spelling, typically left behind when four comparison methods are folded into one helper taking the operator as an argument,
+    is written back as the expression it evaluates"""
+    CMP = {"lt": ast.Lt, "le": ast.LtE, "gt": ast.Gt, "ge": ast.GtE, "eq": ast.Eq, "ne": ast.NotEq}
+    BIN = {"add": ast.Add, "sub": ast.Sub, "mul": ast.Mult, "truediv": ast.Div, "mod": ast.Mod, "pow": ast.Pow,
+           "floordiv": ast.FloorDiv}
+
+    def __init__(self, tree, log):
+        self.log = log
+        self.mods, self.funcs = set(), {}
+        for n in ast.walk(tree):
+            if isinstance(n, ast.Import):
+                for a in n.names:
+                    if a.name == "operator":
+                        self.mods.add(a.asname or "operator")
+            elif isinstance(n, ast.ImportFrom) and n.module == "operator":
+                for a in n.names:
+                    self.funcs[a.asname or a.name] = a.name
+
+    def visit_Call(self, n):
+        self.generic_visit(n)
+        nm = None
+        if isinstance(n.func, ast.Attribute) and isinstance(n.func.value, ast.Name) and n.func.value.id in self.mods:
+            nm = n.func.attr
+        elif isinstance(n.func, ast.Name) and n.func.id in self.funcs:
+            nm = self.funcs[n.func.id]
+        if nm is None or n.keywords:
+            return n
+        nm = nm.strip("_")
+        if nm in self.CMP and len(n.args) == 2:
+            self.log.append(("operator", nm))
+            return ast.copy_location(ast.Compare(left=n.args[0], ops=[self.CMP[nm]()], comparators=[n.args[1]]), n)
+        if nm in self.BIN and len(n.args) == 2:
+            self.log.append(("operator", nm))
+            return ast.copy_location(ast.BinOp(left=n.args[0], op=self.BIN[nm](), right=n.args[1]), n)
+        if nm == "neg" and len(n.args) == 1:
+            return ast.copy_location(ast.UnaryOp(op=ast.USub(), operand=n.args[0]), n)
+        return n
+
+
 # ------------------------------------------------------------------------------------------------ driver
 def normalise(tree, modname, inventory):
     log = []
     inl = _Inliner(tree, modname, inventory, log)
     inl.run()
     tree._helpers = inl.found
+    _OperatorCalls(tree, log).visit(tree)
     _Enum(log).visit(tree)
     _Zip(log).visit(tree)
     _Aug(log).visit(tree)
@@ -763,6 +806,35 @@ def desummed(fn):
                 out.append(st)
         return out
     f.body = rewrite(f.body)
+    return _finish_view(f, fn)
+
+
+def delocalised(fn):
+    """on-demand view of fn in which locals that merely name an attribute chain of a parameter (`dim = self.dim`,
+    `usys = u.sys`; bound once, at the function's top level, the chain's root never rebound) are written out again"""
+    f = clone(fn)
+    params = {a.arg for a in f.args.args}
+    cnt = {}
+    for n in ast.walk(f):
+        if isinstance(n, ast.Name) and isinstance(n.ctx, (ast.Store, ast.Del)):
+            cnt[n.id] = cnt.get(n.id, 0) + 1
+
+    def chain_root(e):
+        while isinstance(e, ast.Attribute):
+            e = e.value
+        return e.id if isinstance(e, ast.Name) else None
+    m, keep = {}, []
+    for st in f.body:
+        if isinstance(st, ast.Assign) and len(st.targets) == 1 and isinstance(st.targets[0], ast.Name) and \
+                isinstance(st.value, ast.Attribute) and cnt.get(st.targets[0].id) == 1 and \
+                chain_root(st.value) in params and st.targets[0].id not in params and \
+                all(x.lineno < st.lineno for x in ast.walk(f) if isinstance(x, ast.Name) and x.id == chain_root(st.value) and
+                    isinstance(x.ctx, (ast.Store, ast.Del))):
+            m[st.targets[0].id] = st.value
+        else:
+            keep.append(st)
+    if m:
+        f.body = [ast.fix_missing_locations(s_) for s_ in _subst(keep, m)]
     return _finish_view(f, fn)
 
 
